@@ -56,3 +56,117 @@ pub unsafe extern "C" fn waitpid(pid: libc::pid_t, status: *mut libc::c_int, opt
         }
     }
 }
+
+// ------------------------------------------------------------------ Engine M: threads, futexes
+
+fn next_symbol(name: &'static [u8], cache: &std::sync::atomic::AtomicUsize) -> usize {
+    use std::sync::atomic::Ordering::Relaxed;
+    let p = cache.load(Relaxed);
+    if p != 0 {
+        return p;
+    }
+    let p = unsafe { libc::dlsym(libc::RTLD_NEXT, name.as_ptr().cast()) } as usize;
+    assert!(p != 0, "simkernel: the C library has no such symbol");
+    cache.store(p, Relaxed);
+    p
+}
+
+type SyscallFn = unsafe extern "C" fn(libc::c_long, libc::c_long, libc::c_long, libc::c_long, libc::c_long, libc::c_long, libc::c_long) -> libc::c_long;
+
+/// The C library's `syscall(2)` wrapper (the one defined below shadows it for the whole binary).
+pub(crate) unsafe fn real_syscall(num: libc::c_long, a1: libc::c_long, a2: libc::c_long, a3: libc::c_long, a4: libc::c_long, a5: libc::c_long, a6: libc::c_long) -> libc::c_long {
+    static REAL: std::sync::atomic::AtomicUsize = std::sync::atomic::AtomicUsize::new(0);
+    let f: SyscallFn = unsafe { std::mem::transmute(next_symbol(b"syscall\0", &REAL)) };
+    unsafe { f(num, a1, a2, a3, a4, a5, a6) }
+}
+
+/// `syscall(2)`: std's mutexes, condition variables, `thread::park` and channels block in
+/// `syscall(SYS_futex, FUTEX_WAIT..)`. For a thread of a multi-threaded run (Engine M) such a wait hands
+/// the baton to another thread and ends when the futex word has changed or the simulated deadline has
+/// passed (spurious returns are part of the futex contract); everything else goes to the C library.
+/// (x86-64 and aarch64 pass the variadic arguments of `syscall` like fixed ones.)
+#[unsafe(no_mangle)]
+pub unsafe extern "C" fn syscall(num: libc::c_long, a1: libc::c_long, a2: libc::c_long, a3: libc::c_long, a4: libc::c_long, a5: libc::c_long, a6: libc::c_long) -> libc::c_long {
+    if num == libc::SYS_futex && crate::multi::active() {
+        let op = a2 as i32;
+        let cmd = op & !(libc::FUTEX_PRIVATE_FLAG | libc::FUTEX_CLOCK_REALTIME);
+        if cmd == libc::FUTEX_WAIT || cmd == libc::FUTEX_WAIT_BITSET {
+            let ts = a4 as *const libc::timespec;
+            let deadline = if ts.is_null() {
+                None
+            } else {
+                let t = unsafe { (*ts).tv_sec as u64 * 1_000_000_000 + (*ts).tv_nsec as u64 };
+                if cmd == libc::FUTEX_WAIT {
+                    Some(crate::multi::now_ns() + t)
+                } else if op & libc::FUTEX_CLOCK_REALTIME != 0 {
+                    // an absolute wall-clock time: keep the distance
+                    let mut now = libc::timespec { tv_sec: 0, tv_nsec: 0 };
+                    unsafe { real_syscall(libc::SYS_clock_gettime, libc::CLOCK_REALTIME as libc::c_long, &mut now as *mut _ as libc::c_long, 0, 0, 0, 0) };
+                    let now = now.tv_sec as u64 * 1_000_000_000 + now.tv_nsec as u64;
+                    Some(crate::multi::now_ns() + t.saturating_sub(now))
+                } else {
+                    Some(t)
+                }
+            };
+            let r = crate::multi::futex_wait(a1 as usize, a3 as u32, deadline);
+            if r < 0 {
+                unsafe { *libc::__errno_location() = -r };
+                return -1;
+            }
+            return 0;
+        }
+    }
+    unsafe { real_syscall(num, a1, a2, a3, a4, a5, a6) }
+}
+
+struct Start {
+    start: extern "C" fn(*mut libc::c_void) -> *mut libc::c_void,
+    arg: *mut libc::c_void,
+    id: u32,
+}
+
+extern "C" fn trampoline(p: *mut libc::c_void) -> *mut libc::c_void {
+    let s = unsafe { Box::from_raw(p as *mut Start) };
+    crate::multi::thread_begin(s.id);
+    let r = (s.start)(s.arg);
+    crate::multi::thread_end();
+    r
+}
+
+/// `pthread_create`: a thread created by a thread of a multi-threaded run becomes a thread of that run.
+#[unsafe(no_mangle)]
+pub unsafe extern "C" fn pthread_create(
+    thread: *mut libc::pthread_t,
+    attr: *const libc::pthread_attr_t,
+    start: extern "C" fn(*mut libc::c_void) -> *mut libc::c_void,
+    arg: *mut libc::c_void,
+) -> libc::c_int {
+    type F = unsafe extern "C" fn(*mut libc::pthread_t, *const libc::pthread_attr_t, extern "C" fn(*mut libc::c_void) -> *mut libc::c_void, *mut libc::c_void) -> libc::c_int;
+    static REAL: std::sync::atomic::AtomicUsize = std::sync::atomic::AtomicUsize::new(0);
+    let real: F = unsafe { std::mem::transmute(next_symbol(b"pthread_create\0", &REAL)) };
+    if !crate::multi::active() {
+        return unsafe { real(thread, attr, start, arg) };
+    }
+    let id = crate::multi::register_thread();
+    crate::multi::count_thread();
+    let boxed = Box::into_raw(Box::new(Start { start, arg, id }));
+    let rc = unsafe { real(thread, attr, trampoline, boxed.cast()) };
+    if rc != 0 {
+        // (a thread that was registered and never started would be waited for for ever)
+        panic!("simkernel: pthread_create failed inside a multi-threaded run: {rc}");
+    }
+    crate::multi::set_pthread(id, unsafe { *thread });
+    crate::multi::point();
+    rc
+}
+
+/// `pthread_join` by a thread of a multi-threaded run waits, baton given away, until the target's code
+/// has ended; the real join then only waits for the thread's own teardown.
+#[unsafe(no_mangle)]
+pub unsafe extern "C" fn pthread_join(thread: libc::pthread_t, retval: *mut *mut libc::c_void) -> libc::c_int {
+    type F = unsafe extern "C" fn(libc::pthread_t, *mut *mut libc::c_void) -> libc::c_int;
+    static REAL: std::sync::atomic::AtomicUsize = std::sync::atomic::AtomicUsize::new(0);
+    let real: F = unsafe { std::mem::transmute(next_symbol(b"pthread_join\0", &REAL)) };
+    crate::multi::join_wait(thread);
+    unsafe { real(thread, retval) }
+}
